@@ -246,7 +246,8 @@ theorem newClass_wf {s : State} (h : WF s) (inf : Info) (ok : ClassOK s inf) : W
       rw [← h.stat.methodsI_keep _ keep c hc']
       exact hm
 
-theorem userInfo_ok {s : State} (p : Nat) (hp : p < s.ncls) (d : Option String) : ClassOK s (userInfo s p d) := by
+theorem userInfo_ok {s : State} (p : Nat) (hp : p < s.ncls) (d : Option String) (dm : Bool) :
+    ClassOK s (userInfo s p d dm) := by
   refine ⟨Or.inr ⟨p, hp, rfl⟩, Or.inr ⟨p, hp, rfl⟩, rfl, rfl, ?_, ?_⟩
   · intro x hx
     show (d.map PyVal.str) = _
@@ -451,11 +452,11 @@ theorem exc_fst_wf {s : State} (h : WF s) (r : Except Err State) (hr : ∀ s', r
 /-- every operation keeps the class table well-formed -/
 theorem step_wf {s : State} (h : WF s) (op : Op) : WF (step s op).1 := by
   cases op with
-  | nc p d =>
-    show WF (stepG implSem s (.nc p d)).1
+  | nc p d dm =>
+    show WF (stepG implSem s (.nc p d dm)).1
     simp only [stepG]
     split
-    · rename_i hp; exact newClass_wf h _ (userInfo_ok p hp d)
+    · rename_i hp; exact newClass_wf h _ (userInfo_ok p hp d dm)
     · exact h
   | ni c a =>
     show WF (stepG implSem s (.ni c a)).1
@@ -833,11 +834,11 @@ theorem exc_rel {s a : State} (r : R s a) (x y : Except Err State) (hxy : RelE x
 theorem step_refines {s a : State} (h : WF s) (r : R s a) (op : Op) :
     R (step s op).1 (specStep a op).1 ∧ (step s op).2 = (specStep a op).2 := by
   cases op with
-  | nc p d =>
-    show R (stepG implSem s (.nc p d)).1 (stepG specSem a (.nc p d)).1 ∧ _ = (stepG specSem a (.nc p d)).2
+  | nc p d dm =>
+    show R (stepG implSem s (.nc p d dm)).1 (stepG specSem a (.nc p d dm)).1 ∧ _ = (stepG specSem a (.nc p d dm)).2
     simp only [stepG]
     rw [r.ncls]
-    have hu : userInfo a p d = userInfo s p d := by
+    have hu : userInfo a p d dm = userInfo s p d dm := by
       unfold userInfo State.mro
       rw [r.ncls, r.info]
     rw [hu]
